@@ -234,6 +234,9 @@ Digit(pat, i, pos) ==
       [] OTHER -> 16 + (pos % 112)
 ContentByte(pat, i, j) == IF pat.name = "max" THEN 255 ELSE 16 + ((i * 37 + j + 50) % 112)
 Content(pat, i, L) == [j \in 1..L |-> ContentByte(pat, i, j)]
+(* UTF-16LE text of L code units none of which is 0x0000: a character below U+0100 (xx 00) alternates with one whose LOW byte is
+   zero (00 xx), so that the byte string contains 00 00 at odd offsets -- which is not the terminator *)
+WzContent(pat, i, L) == [j \in 1..(2 * L) |-> IF j % 4 \in {1, 0} THEN ContentByte(pat, i, j) ELSE 0]
 VarOrdinal(S, i) == Cardinality({j \in 1..i : ~IsFixedField(S.name, S.fields[j])})
 VLen(S, pat, i, kind) ==
     IF kind = "dirinfo" THEN 0
@@ -265,7 +268,7 @@ FieldPieces(S, i, pat) ==
               [] kind = "dir43" -> StrPieces(f.name, 5, Content(pat, i, 43 * (IF L > 2 THEN 2 ELSE L)))
               [] kind \in {"bytes", "rest", "pad"} -> <<RawPiece(<<f.name>>, Content(pat, i, L), <<>>)>>
               [] kind = "pad0" -> <<RawPiece(<<f.name>>, Zeros(L), <<>>)>>        \* "null padding byte(s)"
-              [] kind = "wz" -> <<RawPiece(<<f.name>>, Content(pat, i, 2 * L), <<0, 0>>)>>
+              [] kind = "wz" -> <<RawPiece(<<f.name>>, WzContent(pat, i, L), <<0, 0>>)>>
               [] kind = "dialects" -> <<[P0 EXCEPT !.t = "strs", !.p = <<f.name, "Dialects">>,
                                                   !.names = [k \in 1..L |-> DialectNames[((k + i + (IF pat.name = "len" THEN 0 ELSE 11)) % 13) + 1]]]>>
               [] kind = "ranges" -> <<[P0 EXCEPT !.t = "alloc", !.p = <<f.name>>, !.n = L]>>
